@@ -5,13 +5,18 @@ import IGVerif.Model.Tab
 namespace IGVerif.TabPrint
 open IGVerif IGVerif.Tab
 
-/-- `CleanInput(input, separator)`: `\r?\n|\r` → blank, separator deleted -/
-def cleanInput (sep : Char) : Str → Str
-  | [] => []
-  | '\r' :: '\n' :: rest => ' ' :: cleanInput sep rest
-  | '\n' :: rest => ' ' :: cleanInput sep rest
-  | '\r' :: rest => ' ' :: cleanInput sep rest
-  | c :: rest => if c = sep then cleanInput sep rest else c :: cleanInput sep rest
+/-- `CleanInput(input, separator)`: first every `\r?\n|\r` becomes a blank, then the
+    separator is deleted. One left-to-right pass; `prevCR` remembers that the previous
+    character was a carriage return (so that a following line feed belongs to it). -/
+def cleanAux (sep : Char) : Bool → Str → Str
+  | _, [] => []
+  | prevCR, c :: rest =>
+    if c = '\r' then ' ' :: cleanAux sep true rest
+    else if c = '\n' then (if prevCR then cleanAux sep false rest else ' ' :: cleanAux sep false rest)
+    else if c = sep then cleanAux sep false rest
+    else c :: cleanAux sep false rest
+
+def cleanInput (sep : Char) (s : Str) : Str := cleanAux sep false s
 
 structure POpts where
   gs : Bool := false
